@@ -5,7 +5,9 @@ unconstrained; R2 every bottom-tested vector loop has its first iteration justif
 acquire/release pairing on all paths; R4 constructor/destructor and init/destroy pairing; R5 thread-exit
 release of per-thread processors; R6 collector ownership of parameter objects created by readers;
 R8 no address of thread storage escapes into longer-lived objects; R9 the arrays of an object created in a function
-(extent from its constructor arguments) cover what every callee indexes through it (field requirements of the callee).
+(extent from its constructor arguments) cover what every callee indexes through it (field requirements of the callee);
+R10 memcpy/memmove/memset ranges over arrays held in object fields stay inside the extent the owning object determines
+(zero instances on the unchanged tree: the library has no such call; exercised by the seeded change C14b and a benign rewrite).
 Not decided: index arithmetic inside the FFT kernels, user-chosen lifecycles, libfftw3/libstdc++ internals.
 """
 import re
@@ -47,10 +49,12 @@ def run(chk):
         reqs = bounds.Requirements(v)
         rel = bounds.ctor_relations(v)
         fext = bounds.object_field_extents(v)
+        earr = bounds.element_arrays(v)
         chk.set_count("R1.constructor_relations", len(rel))
         narr = 0
         npair = 0
         nsized = 0
+        nmem = 0
         for f in fns:
             if f.get("implicit") or f.get("defaulted"):
                 continue
@@ -64,6 +68,7 @@ def run(chk):
                 chk.ob("R1", o["key"], o["status"], where=o["where"], detail=o["detail"], variant=vn, data=o.get("data"))
             # ---------------- R9
             nsized += check_sized_objects(chk, v, f, rel, reqs, fext)
+            nmem += check_field_arrays(chk, v, f, rel, fext, earr)
             # ---------------- R3
             tr, eff = pairing.function_pairing(v, f)
             if tr.allocs:
@@ -87,6 +92,7 @@ def run(chk):
                                 variant=vn)
         chk.set_count("R1.local_arrays", narr)
         chk.set_count("R9.sized_object_uses", nsized)
+        chk.set_count("R10.memcpy_ranges_over_field_arrays", nmem)
         chk.set_count("R3.allocations_in_functions", npair)
         # ---------------- R4 / R5 constructor-destructor
         ctors = [f for f in fns if f.get("kind") == "ctor" and not f.get("implicit") and not f.get("defaulted") and not f.get("deleted")]
@@ -349,7 +355,7 @@ ROLE_HOPS = {"in_out_params": "in", "extracted_lweparams": "ext", "extract_param
              "tlwe_params": "tlwe", "accum_params": "tlwe", "tgsw_params": "tgsw", "bk_params": "tgsw"}
 
 
-def to_roles(t):
+def to_roles(t, rec_of=None):
     """Dimension atoms reached through the linked parameter objects of one key / parameter set are renamed by their role:
     ...->in_out_params->n -> n_in; ...->tlwe_params->N / accum_params->N -> N (k likewise); extracted_lweparams.n -> N*k
     (TLweParams constructor); ...->bk_params->l -> l.  -> (rewritten term, every dimension atom had a role)"""
@@ -366,6 +372,9 @@ def to_roles(t):
         root = path[0][1] if path[0][0] == "sym" else None
         owner = hops[-1] if hops else root
         role = ROLE_HOPS.get(owner)
+        if role is None and rec_of is not None:
+            # the hop has a neutral name (e.g. `params`): use the type of the parameter object when it is unambiguous
+            role = {"TLweParams": "tlwe", "TGswParams": "tgsw"}.get(rec_of(a[1]))
         if role == "in" and a[2] == "n":
             m[a] = sym.sym("n_in")
         elif role == "ext" and a[2] == "n":
@@ -440,4 +449,64 @@ def check_sized_objects(chk, v, f, rel, reqs, fext):
                                cname, ", ".join(sym.show(c)[:40] for c in cargs if c is not None), key_[1], sym.show(extent)[:60], x["name"], detail[:60], where2,
                                sym.show(need2)[:60], d_[:120]), variant=v.name,
                            data={"extent": sym.show(extent), "needed": sym.show(need2)})
+    return n
+
+
+# ------------------------------------------------------------------------------ R10: arrays owned by objects
+MEMFUNCS = {"memcpy": (0, 1), "std::memcpy": (0, 1), "memmove": (0, 1), "std::memmove": (0, 1), "memset": (0,), "std::memset": (0,)}
+
+
+def check_field_arrays(chk, v, f, rel, fext, earr):
+    """Subscripts of, and memcpy/memset ranges over, arrays held in fields of objects whose extent the object itself
+    determines (LweKey::key has params->n elements, each IntPolynomial of a TLweKey has params->N coefficients, ...):
+    index range / byte count vs that extent, dimensions renamed by their role; assertions of the function are facts."""
+    from sa.symexec import pointee_size
+    from sa.ioseq import type_of
+    eff, st, ex = run_function(v, f, hooks=Hooks())
+    roots = {sym.sym(p["n"]): p["t"] for p in f.params}
+    if f.get("record"):
+        roots[sym.sym("this")] = f.record + " *"
+    R = lambda t: bounds.apply_relations(v, t, roots, rel) if rel else t
+    n = 0
+    strip_ = lambda t: strip_(t[2]) if t and t[0] == "cast" else t
+
+    from sa.ioseq import _record_in_type
+    rec_of = lambda o: _record_in_type(v, type_of(v, o, roots))
+
+    def decide(extent, need, guards, loops, what, where):
+        ext_r, e_full = to_roles(R(extent), rec_of)
+        need_r, n_full = to_roles(R(need), rec_of)
+        s_, d_ = bounds.decide_nonneg(sym.sub(ext_r, need_r))
+        if s_ != "proved":
+            from sa import affine
+            facts = affine.guard_constraints([to_roles(R(g))[0] for g in guards]) + affine.loop_constraints(loops)
+            if affine.prove_nonneg(sym.sub(ext_r, need_r), facts):
+                s_, d_ = "proved", "under the enclosing conditions"
+        if s_ == "refuted" and not (e_full and n_full):
+            s_ = "unknown"
+        return s_, d_
+    # memcpy family
+    for x, loops, guards in bounds.walk_eff(eff):
+        if x["e"] != "call" or x["name"] not in MEMFUNCS:
+            continue
+        nbytes = strip_(x["args"][-1])
+        for ai in MEMFUNCS[x["name"]]:
+            a = strip_(x["args"][ai]) if x["args"][ai] is not None else None
+            base, off = bounds.split_base_offset(a)
+            if base is None or base[0] != "fld":
+                continue
+            extent = bounds.field_array_extent(v, base, roots, fext, earr)
+            if extent is None:
+                continue
+            ty = type_of(v, base, roots) or ""
+            es = pointee_size(ty) or 4
+            cnt = sym.binop("/", nbytes, I(es)) if sym.const_value(nbytes) is None else I(-(-sym.const_value(nbytes) // es))
+            rng = bounds.index_range(sym.add(off, cnt), loops)
+            if rng is None:
+                continue
+            n += 1
+            s_, d_ = decide(extent, rng[1], guards, loops, x["name"], x["l"])
+            key = "%s: %s over %s stays inside the array (%s elements)" % (f.name, x["name"], sym.show(base)[:50], sym.show(R(extent))[:40])
+            chk.ob("R10", key, {"proved": "proved", "refuted": "refuted"}.get(s_, "assumed"), where="%s:%s" % (f.file, x["l"]),
+                   detail="%s bytes = %s elements from offset %s: %s" % (sym.show(nbytes)[:60], sym.show(cnt)[:60], sym.show(off)[:30], d_[:160]), variant=v.name)
     return n
